@@ -106,7 +106,13 @@ struct Outcome
     std::string what;
     bool fault_fired = false;
     int step_errors = 0;
+    // counters of the bracketed call
+    int stmts = 0;
+    uint64_t ticks = 0, mallocs = 0;
+    std::vector<VfsCallInfo> vfs;
 };
+
+std::string fault_site(const FaultSpec& f);
 
 // ------------------------------------------------------------------ fields
 enum Field
@@ -305,7 +311,26 @@ struct World
         int64_t track = 0;             // target track id (0: none)
         std::set<std::string> fields;  // fields of the target allowed to change ("*": all)
         bool expect_unchanged = false; // whole observation must equal the previous one
+        FaultSpec fault;
     };
+    // the main mutating call of the most recent step
+    struct LastCall
+    {
+        bool valid = false, threw = false, fault_fired = false;
+        int stmts = 0;
+        uint64_t ticks = 0, mallocs = 0;
+        std::vector<VfsCallInfo> vfs;
+        std::string opname;
+    } last_call;
+    struct Saved;
+    void save_state(Saved& s);
+    bool restore_state(const Saved& s);
+    void run_atomic();
+    std::map<std::string, Json> derived;  // class key -> plan that reproduces it directly
+    Json enumeration;
+    bool have_enumeration = false;
+    uint64_t accept_post_hash = 0;  // C14: a real-path fault may be reported after the commit point
+    bool have_accept_post = false;
     void after_step(const StepEffect& e);
     void exec_track_op(const Step& s);
     void exec_crate_op(const Step& s);
